@@ -18,7 +18,10 @@ from mirsym.values import *          # noqa: E402
 from mirsym import build             # noqa: E402
 from mirsym.engine import Ctx        # noqa: E402
 
-WORK = os.path.join(VERIF, '.work')
+WORK = os.environ.get('VERIF_WORK', os.path.join(VERIF, '.work'))
+REPLAY_DIR = os.environ.get('VERIF_REPLAY_DIR', os.path.join(VERIF, 'replay'))
+KANI_DIR = os.environ.get('VERIF_KANI_DIR', os.path.join(VERIF, 'kani'))
+EVIDENCE_DIR = os.environ.get('VERIF_EVIDENCE_DIR', os.path.join(VERIF, 'evidence'))
 REPO = build.REPO
 NPROC = int(os.environ.get('VERIF_JOBS', '14'))
 
@@ -44,7 +47,7 @@ def build_replay(profile='dev'):
         if profile == 'release':
             args.append('--release')
         env = dict(os.environ, CARGO_NET_OFFLINE='true')
-        p = subprocess.run(args, cwd=os.path.join(VERIF, 'replay'), env=env, stdout=subprocess.PIPE, stderr=subprocess.STDOUT, text=True)
+        p = subprocess.run(args, cwd=REPLAY_DIR, env=env, stdout=subprocess.PIPE, stderr=subprocess.STDOUT, text=True)
         if p.returncode != 0:
             raise Inconclusive('replay binary does not build:\n' + p.stdout[-3000:])
     b = os.path.join(WORK, 'replay-target', 'debug' if profile == 'dev' else 'release', 'verif_replay')
@@ -361,12 +364,12 @@ class Check:
             'violations': len(self.violations),
         }
         if out['coverage']['states'] < 1: out['coverage']['states'] = 0
-        os.makedirs(os.path.join(VERIF, 'evidence'), exist_ok=True)
+        os.makedirs(EVIDENCE_DIR, exist_ok=True)
         if not (self.inconclusive and cov['states'] == 0):
             # states/transitions must be >= 1 for the schema; an inconclusive run with nothing explored writes no evidence
             out['coverage']['states'] = max(1, out['coverage']['states'])
             out['coverage']['transitions'] = max(1, out['coverage']['transitions'])
-            json.dump(out, open(os.path.join(VERIF, 'evidence', self.pid + '.json'), 'w'), indent=1, default=str)
+            json.dump(out, open(os.path.join(EVIDENCE_DIR, self.pid + '.json'), 'w'), indent=1, default=str)
         by_entry = {}
         for key, (what, path) in sorted(self.known_hits.items()):
             k = self.key_known(key)
